@@ -4,7 +4,7 @@ from .. import core, real, gen, e2e, absdoc
 from ..leandrv import Driver
 
 MODULE = 'Bluebell.Props.C04'
-THEOREMS = ['Bluebell.C04_hier_keyword_table', 'Bluebell.C04_speech_keyword_table', 'Bluebell.C04_attachment_keywords', 'Bluebell.C04_inline_defaults', 'Bluebell.C04_table_cells', 'Bluebell.C04_heading_split', 'Bluebell.C04_examples']
+THEOREMS = ['Bluebell.C04_hier_keyword_table', 'Bluebell.C04_speech_keyword_table', 'Bluebell.C04_attachment_keywords', 'Bluebell.C04_inline_defaults', 'Bluebell.C04_table_cells', 'Bluebell.C04_heading_split', 'Bluebell.C04_examples', 'Bluebell.C04_p_item_to_xml', 'Bluebell.C04_plain_line_is_a_p', 'Bluebell.C04_escaped_line_is_a_p']
 
 
 def strip(t):
